@@ -204,6 +204,7 @@ fn main() {
         "siglong" => suites::signal::run_long(&ctx),
         "sigreset" => suites::signal::run_reset(&ctx),
         "sighostile" => suites::signal::run_hostile(&ctx),
+        "sigseq" => suites::signal::run_seq(&ctx),
         "cfgfuzz" => suites::config::run(&ctx),
         "app" => suites::app::run_app(&ctx),
         "appfault" => suites::app::run_fault(&ctx),
